@@ -82,6 +82,12 @@ structure HistCall where
   kept : HistKept
 deriving Repr, DecidableEq
 
+/-- the default style values handed to `init_mapped_dim`: none, `itertools.cycle(<table>)`,
+`lambda N: np.linspace(a, b, N)`, or anything else (colour maps, generated colours) -/
+inductive StyleDefault where
+  | none | cycle (table : String) | linspace (a b : Nat) | other
+deriving Repr, DecidableEq
+
 end Gen
 
 -- ==== last-good text (tools/update_default_infini.py) ====
@@ -269,5 +275,7 @@ def infLineIdx (remDims : List String) (attr : String → Option String) (iloc :
     isel := (remDims.zip iloc) }
 
 def infHistCall : HistCall := { data := .all, density := .flag, kept := .counts }
+
+def infInitCalls : List (String × StyleDefault) := [("hue", .other), ("color", .other), ("marker", .cycle "_MARKERS_DEFAULT"), ("markersize", .linspace 3 9), ("markeredgecolor", .other), ("linestyle", .cycle "_LINESTYLES_DEFAULT"), ("linewidth", .linspace 1 3), ("col", .none), ("row", .none)]
 
 end Gen.Default
